@@ -131,7 +131,7 @@ ALL = {
             "Spellings outside the statement's unit list are open choices (accepted or rejected).",
             "DESIGN.md §2 C19"),
 }
-READY = ["C16", "C19"]
+READY = sorted(ALL)
 CHECKS = {k: ALL[k] for k in READY}
 
 PENDING = {}
